@@ -233,7 +233,7 @@ func ruleValidateFirst(c *eng.Ctx) {
 	}
 	var vcall *ssa.Call
 	for _, ci := range eng.Calls(fn, false, func(string, ssa.CallInstruction) bool { return true }) {
-		if call, ok := ci.(*ssa.Call); ok && call.Call.StaticCallee() == vf {
+		if call, ok := ci.(*ssa.Call); ok && eng.StaticCallee(call) == vf {
 			vcall = call
 		}
 	}
@@ -312,7 +312,7 @@ func ruleDRMGate(c *eng.Ctx) {
 				continue
 			}
 			for _, ci := range eng.Calls(f, false, func(string, ssa.CallInstruction) bool { return true }) {
-				if ci.Common().StaticCallee() == drm && initFn == nil {
+				if eng.StaticCallee(ci) == drm && initFn == nil {
 					initFn = f
 				}
 			}
@@ -324,7 +324,7 @@ func ruleDRMGate(c *eng.Ctx) {
 	}
 	var dcall *ssa.Call
 	for _, ci := range eng.Calls(initFn, false, func(string, ssa.CallInstruction) bool { return true }) {
-		if call, ok := ci.(*ssa.Call); ok && call.Call.StaticCallee() == drm {
+		if call, ok := ci.(*ssa.Call); ok && eng.StaticCallee(call) == drm {
 			dcall = call
 		}
 	}
@@ -335,7 +335,7 @@ func ruleDRMGate(c *eng.Ctx) {
 			// by role: a function or method of the package with that base name
 			base := n[strings.LastIndex(n, ".")+1:]
 			calls := eng.Calls(initFn, false, func(_ string, ci ssa.CallInstruction) bool {
-				cal := ci.Common().StaticCallee()
+				cal := eng.StaticCallee(ci)
 				return cal != nil && cal.Pkg == drm.Pkg && cal.Name() == base
 			})
 			ok := len(calls) > 0
@@ -592,7 +592,7 @@ func ruleSniffScan(c *eng.Ctx) {
 			if !ok || out != nil {
 				return
 			}
-			h := call.Common().StaticCallee()
+			h := eng.StaticCallee(call)
 			if h == nil || !eng.InModule(h) || h.Blocks == nil {
 				return
 			}
